@@ -224,6 +224,11 @@ theorem liquidate_shape :
     (liquidate.filter (isSigner .insurance)).length = 0 ∧ (liquidate.filter (isSigner .liquidity)).length = 1 ∧
     liquidate.contains .overLiqCheck = true := by decide
 
+/-- every one of these calls is unconditional: none sits inside an `if`, a match arm, a loop or a closure —
+    in particular the liquidator's closing initial-margin check and the two liquidatee conditions -/
+theorem liquidate_unconditional :
+    allUnconditional liquidate_cond = true ∧ liquidate_cond.length = liquidate.length := by decide
+
 /-- both accounts must not be in a flash loan (risk-engine entry points), the liquidatee's liquidation and
     the liquidator's authorization are account constraints (C08) -/
 theorem liquidate_refuses_flashloan :
